@@ -23,21 +23,22 @@ func Materialise(root string, t model.Tree) error {
 	for i := range tt {
 		e := &tt[i]
 		p := filepath.Join(root, filepath.FromSlash(e.Path))
+		if e.Group != 0 && e.Type != "dir" && e.Type != "symlink" {
+			// later members of an inode group (regular files, fifos, device nodes) are links to the first
+			if first, ok := groups[e.Group]; ok {
+				if err := os.Link(first, p); err != nil {
+					return err
+				}
+				continue
+			}
+			groups[e.Group] = p
+		}
 		switch e.Type {
 		case "dir":
 			if err := os.Mkdir(p, 0700); err != nil {
 				return err
 			}
 		case "file":
-			if e.Group != 0 {
-				if first, ok := groups[e.Group]; ok {
-					if err := os.Link(first, p); err != nil {
-						return err
-					}
-					continue
-				}
-				groups[e.Group] = p
-			}
 			if err := os.WriteFile(p, e.Data, 0600); err != nil {
 				return err
 			}
@@ -65,17 +66,18 @@ func Materialise(root string, t model.Tree) error {
 	for i := len(tt) - 1; i >= 0; i-- {
 		e := &tt[i]
 		p := filepath.Join(root, filepath.FromSlash(e.Path))
-		for k, v := range e.Xattrs {
-			if err := unix.Lsetxattr(p, k, []byte(v), 0); err != nil {
-				return fmt.Errorf("lsetxattr %s %s: %w", p, k, err)
-			}
-		}
 		if err := os.Lchown(p, int(e.Uid), int(e.Gid)); err != nil {
 			return err
 		}
 		if e.Type != "symlink" {
 			if err := unix.Chmod(p, e.Perm&07777); err != nil {
 				return err
+			}
+		}
+		// after the ownership change: the kernel drops security.capability on chown
+		for k, v := range e.Xattrs {
+			if err := unix.Lsetxattr(p, k, []byte(v), 0); err != nil {
+				return fmt.Errorf("lsetxattr %s %s: %w", p, k, err)
 			}
 		}
 		ts := []unix.Timespec{unix.NsecToTimespec(e.Mtime), unix.NsecToTimespec(e.Mtime)}
